@@ -187,7 +187,10 @@ def d5_history_monotone(ck):
         for bb, t in live_calls(b):
             cn = callee_name(t)
             if "hash::map::HashMap" in cn:
-                g = " ".join(t.get("generics", []))
+                g = [x.strip() for x in t.get("generics", [])]
+                # only maps with the history's key/value types (the field is private: other maps cannot alias it)
+                if len(g) >= 2 and (g[0], g[1]) != ("u64", "usize"):
+                    continue
                 n += 1
                 if cn.endswith(bad_ops):
                     ck.fail("D5.shrinks", b.name, b.where(t["line"]), "%s on a hash map in the engine: recorded positions can be forgotten" % cn.split("::")[-1])
